@@ -8,6 +8,9 @@ builder); And/When require all members, Or any member, the info paths name only
 satisfied members; every factory's doc string carries exactly its keyword
 settings under its own name and the inner function is named so that type()
 finds the factory (state round trip).
+Round 5 (hunt): compound conditions keep (member, result) pairs (repair
+49ce088); GradientNormTolerance computes the documented norm (repair 1b9ea7b)
+of the gradient of cost(x, *ExtraArgs) (repair 347d7d1).
 NOT decided: numerical evaluation on concrete histories, TimeLimits' clock,
 the documented duplicate-type limitation of state().
 """
@@ -163,11 +166,17 @@ def gradient_norm(ctx):
     forms, n = PC.outcome_formulas(inner.node, _classify, follow=follow)
     got = _drop_atom(forms.get('sat', ('or',)), ('name', 'info'))
     pre = ["g0 = getattr(inst, 'gradient', [None])[-1]"]
-    want = PC.spec_formula('(g0 is None and Lnorm(approx_fprime(inst.bestSolution, inst._cost[1], _epsilon), p=norm, axis=0) <= tolerance) or '
-                           '(not (g0 is None) and Lnorm(g0, p=norm, axis=0) <= tolerance)', pre)
-    eq, cex, rows = PC.equivalent(got, want)
-    ctx.stats['truth_table_rows'] += rows
-    ctx.check(eq, 'GradientNormTolerance', 'satisfied iff Lnorm(grad, p=norm) <= tolerance', 'GradientNormTolerance predicate changed', inner, inner.node)
+    # the gradient is that of the registered objective: the raw cost WITH the registered ExtraArgs (inst._cost[2]; None before the
+    # first registration, hence the accepted `or ()` spelling)
+    eq = False
+    for extra in ('*(inst._cost[2] or ())', '*inst._cost[2]'):
+        want = PC.spec_formula('(g0 is None and Lnorm(approx_fprime(inst.bestSolution, inst._cost[1], _epsilon, %s), p=norm, axis=0) <= tolerance) or '
+                               '(not (g0 is None) and Lnorm(g0, p=norm, axis=0) <= tolerance)' % extra, pre)
+        e_, cex, rows = PC.equivalent(got, want)
+        ctx.stats['truth_table_rows'] += rows
+        eq = eq or e_
+    ctx.check(eq, 'GradientNormTolerance', 'satisfied iff Lnorm(grad of cost(x, *ExtraArgs), p=norm) <= tolerance',
+              'GradientNormTolerance predicate is not `Lnorm(approx_fprime(best, raw cost, eps, *ExtraArgs), p=norm) <= tolerance` (a cost registered with ExtraArgs must be differentiated with them)', inner, inner.node)
 
 
 @rule('C10.a', min_instances=17)
